@@ -11,6 +11,7 @@ CONSTANTS
   MaxUDP = 48
   FrameMode = "checked"
   PtrMode = "bounded"
+  UnpackMode = "assign"
   DecoderMode = "pure"
   NonceMode = "fresh"
   ReqLens <- Upto17
